@@ -97,6 +97,8 @@ func VerifC01_Failure(shapeIdx, minor int) {
 		item.ResultMessage = verifNondetString("msg", 3)
 		item.AsynchronousCorrelationValue = verifNondetBytes("async", 8)
 		item.UniqueBatchItemID = verifNondetBytes("batchid", 8)
+		// a message extension is allowed on an item without payload too
+		item.MessageExtension = &MessageExtension{VendorIdentification: verifNondetString("vendor", 3), CriticalityIndicator: verifNondetBool("critical"), VendorExtension: vfGeneric("ext")}
 	}
 	msg.BatchItem = []ResponseBatchItem{item}
 	c01RoundTripResponse(&msg)
